@@ -1,10 +1,11 @@
 //@unit C01_advance
 //@props C01
 //@safetyprops C10 C14
-//@desc ClipperBase::UpdateEdgeIntoAEL - how an edge moves on to its next segment at a vertex (loop-free; NextVertex, IsHorizontal, IsJoined, IsOpen are the real bodies; SetDx, Split, TrimHorz, InsertScanline, CheckJoinLeft/Right are logging stubs): the new bottom is the old top, the new top is the NEXT vertex in the edge's winding direction (wind_dx > 0: ->next, else ->prev), curr_x restarts at the new bottom, the slope is recomputed AFTER both end points are in place; a joined edge is split at the new bottom first; a horizontal segment schedules nothing (closed paths: TrimHorz with preserve_collinear_), every other segment gets a scanline AT ITS TOP (so the sweep stops at every vertex) and is checked for joins on both sides at its bottom.
+//@desc ClipperBase::UpdateEdgeIntoAEL - how an edge moves on to its next segment at a vertex (loop-free; NextVertex, IsHorizontal, IsJoined, IsOpen are the real bodies; SetDx, Split, TrimHorz, InsertScanline, CheckJoinLeft/Right are logging stubs): the new bottom is the old top, the new top is the NEXT vertex in the edge's winding direction (wind_dx > 0: ->next, else ->prev), curr_x restarts at the new bottom, the slope is recomputed AFTER both end points are in place; a joined edge is split at the new bottom first; a horizontal segment schedules nothing (closed paths: TrimHorz with preserve_collinear_), every other segment gets a scanline AT ITS TOP (so the sweep stops at every vertex) and is checked for joins on both sides at its bottom. DoTopOfScanbeam - BOUNDED (AEL of 0..3 edges; DoMaxima, AddOutPt, UpdateEdgeIntoAEL, TopX are stubs, IsMaxima / IsHotEdge / PushHorz real): every edge is handled exactly once - one that continues through the scanline gets curr_x = TopX(e, y); one that ends there gets curr_x = its top x and then either DoMaxima (local maximum) or, after adding its top vertex to its contour if it is hot, moves on to its next segment; exactly the edges whose new segment is horizontal are stacked for later, and the stack starts empty.
 #include "vf.h"
 //@include engine_types.inc
 unsigned nondet_uint(void); bool nondet_bool(void); int64_t nondet_i64(void);
+#ifndef TOPSB
 int g_setdx_n, g_split_n, g_trim_n, g_scan_n, g_cjl_n, g_cjr_n; Point64 g_setdx_bot, g_setdx_top, g_split_pt, g_cjl_pt, g_cjr_pt; int64_t g_scan_y; bool g_trim_pc, g_cjr_flag;
 static void SetDx__p(Active* e) { g_setdx_n++; g_setdx_bot = e->bot; g_setdx_top = e->top; }
 #define SetDx(e) SetDx__p(&(e))
@@ -17,15 +18,15 @@ static void CheckJoinLeft__p(ClipperBase* s, Active* e, Point64 pt) { g_cjl_n++;
 #define CheckJoinLeft(s, e, p) CheckJoinLeft__p(s, &(e), p)
 static void CheckJoinRight__p(ClipperBase* s, Active* e, Point64 pt, bool f) { g_cjr_n++; g_cjr_pt = pt; g_cjr_flag = f; }
 #define CheckJoinRight(s, e, p, f) CheckJoinRight__p(s, &(e), p, f)
-//@extract file=CPP/Clipper2Lib/src/clipper.engine.cpp func=NextVertex byptr=e refmacro=1
+//@extract file=CPP/Clipper2Lib/src/clipper.engine.cpp func=NextVertex byptr=e refmacro=1 ifndef=TOPSB
 //@end
-//@extract file=CPP/Clipper2Lib/src/clipper.engine.cpp func=IsHorizontal sig="const Active& e" byptr=e refmacro=1
+//@extract file=CPP/Clipper2Lib/src/clipper.engine.cpp func=IsHorizontal sig="const Active& e" byptr=e refmacro=1 ifndef=TOPSB
 //@end
-//@extract file=CPP/Clipper2Lib/src/clipper.engine.cpp func=IsJoined byptr=e refmacro=1
+//@extract file=CPP/Clipper2Lib/src/clipper.engine.cpp func=IsJoined byptr=e refmacro=1 ifndef=TOPSB
 //@end
-//@extract file=CPP/Clipper2Lib/src/clipper.engine.cpp func=IsOpen sig="const Active& e" byptr=e refmacro=1
+//@extract file=CPP/Clipper2Lib/src/clipper.engine.cpp func=IsOpen sig="const Active& e" byptr=e refmacro=1 ifndef=TOPSB
 //@end
-//@extract file=CPP/Clipper2Lib/src/clipper.engine.cpp func=ClipperBase::UpdateEdgeIntoAEL self=ClipperBase selfcalls=Split,InsertScanline,CheckJoinLeft,CheckJoinRight
+//@extract file=CPP/Clipper2Lib/src/clipper.engine.cpp func=ClipperBase::UpdateEdgeIntoAEL self=ClipperBase selfcalls=Split,InsertScanline,CheckJoinLeft,CheckJoinRight ifndef=TOPSB
 //@end
 static inline bool Point64_eq(Point64 a, Point64 b) { return a.x == b.x && a.y == b.y; }
 void h_Update(void)
@@ -46,5 +47,62 @@ void h_Update(void)
   else __CPROVER_assert(g_scan_n == 1 && g_scan_y == e.top.y && g_trim_n == 0 && g_cjl_n == 1 && g_cjr_n == 1 && Point64_eq(g_cjl_pt, e.bot) && Point64_eq(g_cjr_pt, e.bot), "otherwise: a scanline at the segment's top, join checks on both sides at its bottom");
   VF_CANARY();
 }
+#endif
+/* ================= DoTopOfScanbeam ================= */
+#ifdef TOPSB
+Active g_e[3]; Vertex g_vt[3]; int g_max_n[3], g_add_n[3], g_upd_n[3], g_topx_n[3]; int g_seq; int g_add_seq[3], g_upd_seq[3]; Point64 g_add_pt[3]; int64_t g_topx_ret[3]; int64_t g_topx_y[3]; bool g_becomes_horz[3];
+static int eidx(const Active* e) { for (int i = 0; i < 3; ++i) if (e == &g_e[i]) return i; return -1; }
+static Active* DoMaxima__p(ClipperBase* s, Active* e) { int k = eidx(e); g_max_n[k]++; return e->next_in_ael; }
+#define DoMaxima(s, e) DoMaxima__p(s, &(e))
+static OutPt* AddOutPt__p(ClipperBase* s, const Active* e, Point64 pt) { int k = eidx(e); g_add_n[k]++; g_add_seq[k] = g_seq++; g_add_pt[k] = pt; return NULL; }
+#define AddOutPt(s, e, p) AddOutPt__p(s, &(e), p)
+static void UpdateEdgeIntoAEL(ClipperBase* s, Active* e) { int k = eidx(e); g_upd_n[k]++; g_upd_seq[k] = g_seq++; if (g_becomes_horz[k]) { e->bot = e->top; e->top.x = e->top.x + 1; } else { e->bot = e->top; e->top.y = e->top.y - 1; } }
+static int64_t TopX__p(const Active* e, int64_t y) { int k = eidx(e); g_topx_n[k]++; g_topx_y[k] = y; return g_topx_ret[k]; }
+#define TopX(e, y) TopX__p(&(e), y)
+//@extract file=CPP/Clipper2Lib/src/clipper.engine.cpp func=IsMaxima sig="const Vertex& v" as=IsMaximaV byptr=v ifdef=TOPSB
+//@end
+//@extract file=CPP/Clipper2Lib/src/clipper.engine.cpp func=IsMaxima sig="const Active& e" byptr=e refmacro=1 ifdef=TOPSB
+//@sub /IsMaxima\(\*e->vertex_top\)/IsMaximaV(e->vertex_top)/
+//@end
+//@extract file=CPP/Clipper2Lib/src/clipper.engine.cpp func=IsHotEdge byptr=e refmacro=1 ifdef=TOPSB
+//@end
+//@extract file=CPP/Clipper2Lib/src/clipper.engine.cpp func=IsHorizontal sig="const Active& e" byptr=e refmacro=1 ifdef=TOPSB
+//@end
+//@extract file=CPP/Clipper2Lib/src/clipper.engine.cpp func=ClipperBase::PushHorz self=ClipperBase byptr=e ifdef=TOPSB
+//@sub /&\(\*e\)/e/ min=0
+//@end
+#define PushHorz_CALL 1
+//@extract file=CPP/Clipper2Lib/src/clipper.engine.cpp func=ClipperBase::DoTopOfScanbeam self=ClipperBase selfcalls=DoMaxima,AddOutPt,UpdateEdgeIntoAEL ifdef=TOPSB
+//@sub /PushHorz\(\*e\)/PushHorz(self, e)/
+//@end
+void h_Top(void)
+{
+  ClipperBase cb; OutRec orec; unsigned n = nondet_uint(); __CPROVER_assume(n <= 3); int64_t y = nondet_i64(); __CPROVER_assume(y > -((int64_t)1 << 61) && y < ((int64_t)1 << 61));
+  bool attop[3], ismax[3], hot[3]; Point64 top0[3];
+  for (unsigned i = 0; i < 3; ++i) {
+    g_e[i].prev_in_ael = (i > 0 && i < n) ? &g_e[i - 1] : NULL; g_e[i].next_in_ael = (i + 1 < n) ? &g_e[i + 1] : NULL; g_e[i].next_in_sel = NULL;
+    g_e[i].top.x = nondet_i64(); __CPROVER_assume(g_e[i].top.x > -((int64_t)1 << 61) && g_e[i].top.x < ((int64_t)1 << 61)); attop[i] = nondet_bool(); g_e[i].top.y = attop[i] ? y : y - 5; g_e[i].bot.x = nondet_i64(); g_e[i].bot.y = y + 7; g_e[i].curr_x = nondet_i64();
+    g_e[i].vertex_top = &g_vt[i]; ismax[i] = nondet_bool(); g_vt[i].flags = ismax[i] ? VertexFlags_LocalMax : VertexFlags_Empty; hot[i] = nondet_bool(); g_e[i].outrec = hot[i] ? &orec : NULL;
+    g_max_n[i] = g_add_n[i] = g_upd_n[i] = g_topx_n[i] = 0; g_topx_ret[i] = nondet_i64(); g_becomes_horz[i] = nondet_bool(); top0[i] = g_e[i].top;
+  }
+  cb.actives_ = n ? &g_e[0] : NULL; cb.sel_ = &g_e[0]; g_seq = 0;
+  DoTopOfScanbeam(&cb, y);
+  int nhorz = 0;
+  for (unsigned i = 0; i < 3; ++i) if (i < n) {
+    if (!attop[i]) __CPROVER_assert(g_topx_n[i] == 1 && g_topx_y[i] == y && g_e[i].curr_x == g_topx_ret[i] && g_max_n[i] == 0 && g_add_n[i] == 0 && g_upd_n[i] == 0, "an edge that continues through the scanline gets curr_x = TopX(e, y) and nothing else");
+    else if (ismax[i]) __CPROVER_assert(g_max_n[i] == 1 && g_add_n[i] == 0 && g_upd_n[i] == 0 && g_topx_n[i] == 0 && g_e[i].curr_x == top0[i].x, "an edge ending at a local maximum: curr_x = its top x, then DoMaxima once");
+    else {
+      __CPROVER_assert(g_upd_n[i] == 1 && g_max_n[i] == 0 && g_topx_n[i] == 0, "an edge ending at an intermediate vertex moves on to its next segment once");
+      __CPROVER_assert(g_add_n[i] == (hot[i] ? 1 : 0) && (hot[i] ==> (g_add_seq[i] < g_upd_seq[i] && g_add_pt[i].x == top0[i].x && g_add_pt[i].y == top0[i].y)), "a hot edge first adds its top vertex to its contour");
+      if (g_becomes_horz[i]) nhorz++;
+    }
+  }
+  /* horizontals are stacked for later: the stack holds exactly the edges whose new segment is horizontal */
+  int cnt = 0; Active* h = cb.sel_; for (int k = 0; k < 4; ++k) { if (!h) break; int hi = eidx(h); __CPROVER_assert(hi >= 0 && (unsigned)hi < n && attop[hi] && !ismax[hi] && g_becomes_horz[hi], "only edges that became horizontal are stacked"); cnt++; h = h->next_in_sel; }
+  __CPROVER_assert(h == NULL && cnt == nhorz, "every edge that became horizontal is stacked exactly once (the stack starts empty)");
+  VF_CANARY();
+}
+#endif
 //@run name=UpdateEdgeIntoAEL entry=h_Update unwind=5 flags="--bounds-check --pointer-check" solver=cadical timeout=120
 //@assume A5 (C01_advance): SetDx, Split, TrimHorz, InsertScanline, CheckJoinLeft, CheckJoinRight are logging stubs in the UpdateEdgeIntoAEL harness.
+//@run name=DoTopOfScanbeam entry=h_Top defs=TOPSB unwind=6 flags="--bounds-check --pointer-check --signed-overflow-check" solver=cadical timeout=300 bounded="active edge list of 0..3 edges (DoMaxima returns the next edge; it does not unlink in this harness)"
